@@ -369,6 +369,31 @@ func checkC03(w *Worker) {
 		}
 		return idxs
 	}, 2))
+	// names with empty path segments: "a/", "/a", "a//a", "/", "//" ... ("coffee/" and "coffee/cup" are siblings below
+	// "coffee", not a food and its sub-category)
+	var uniE []string
+	for n := 1; n <= 3; n++ {
+		for m := 0; m < 1<<uint(n); m++ {
+			segs := make([]string, n)
+			for k := range segs {
+				if m&(1<<uint(k)) != 0 {
+					segs[k] = "a"
+				}
+			}
+			if p := strings.Join(segs, "/"); p != "" {
+				uniE = append(uniE, p) // 13 names: a, /, /a, a/, a/a, //, a//, /a/, ...
+			}
+		}
+	}
+	w.Explore("subsets-with-empty-segments", ExploreOpts{ShardDepth: 9}, body(uniE, func(x *Exec) []int {
+		var idxs []int
+		for i := range uniE {
+			if x.Choose(2, "input:member") == 1 {
+				idxs = append(idxs, i)
+			}
+		}
+		return idxs
+	}, 2))
 	uni2 := pathUniverse([]string{"a", "b"}, 3) // 14 paths
 	if w.Tier == "quick" {
 		w.Explore("subsets-ab-depth3", ExploreOpts{ShardDepth: 9}, body(uni2, func(x *Exec) []int {
